@@ -56,9 +56,6 @@ open Paloma.Auth
 
 def authority : Nat := 99
 
-/-- authority-only handlers that compare only the `Authority` field (not the metadata creator) -/
-def authorityIgnoresCreator : List String := ["paloma.UpdateParams", "skyway.UpdateParams"]
-
 def grantsFn (l : List (Nat × Nat)) : Nat → Nat → Bool := fun g e => l.contains (g, e)
 
 structure PMsg where
@@ -76,9 +73,15 @@ def parseMsg? (tok : String) : Option PMsg :=
     pure { typ, metaSigners, creator, authf }
   | _ => none
 
+/-- the model's gate of the governance handlers (`Paloma.Auth.authorityOkOf`), authority = 99 -/
 def authorityOkOf (typ : String) (creator : Nat) (authf : Option Nat) : Bool :=
-  (authf == none || authf == some authority)
-  && (authorityIgnoresCreator.contains typ || creator == authority)
+  Paloma.Auth.authorityOkOf authority typ creator authf
+
+/-- a parsed message as a message of the model (identity fields other than `Authority` are not
+    part of the op line: the verdict gets the redirected ones by name) -/
+def toMsg (p : PMsg) : Msg :=
+  { typ := p.typ, signers := p.metaSigners, creator := p.creator,
+    field := fun f => if f == "Authority" then p.authf else none }
 
 def stepMulti (sc txs gs vi h chg : String) (toks : List String) : String :=
   let _ := sc
@@ -86,10 +89,9 @@ def stepMulti (sc txs gs vi h chg : String) (toks : List String) : String :=
   | some txSigners, some grantList, some victim, some pmsgs =>
     if pmsgs.isEmpty || (h != "ok" && h != "rej" && h != "pre") || (chg != "0" && chg != "1" && chg != "2") then "bad-op" else
     let grants := grantsFn grantList
-    let msgs : List Msg := pmsgs.map fun p =>
-      { typ := p.typ, signers := p.metaSigners, creator := p.creator, idField := fun _ => victim }
-    let declared := pmsgs.map fun p => declaredSigners p.typ p.metaSigners p.authf
-    let ante := h != "pre" && sigCheckTx txSigners declared && anteOkTx msgs grants
+    let msgs : List Msg := pmsgs.map toMsg
+    -- the model's transaction-level checks: `sigCheckTx` over `declared`, then `anteOkTx`
+    let ante := h != "pre" && sigCheckTx txSigners (msgs.map declared) && anteOkTx msgs grants
     let handlersMayAccept := pmsgs.all fun p =>
       match ruleOf p.typ with
       | none => false
@@ -177,15 +179,16 @@ def stepConfirmHistory (keys : String) (toks : List String) : String :=
   match parsePairList? keys, toks.mapM parseCStep? with
   | some keyList, some steps =>
     if steps.isEmpty then "bad-op" else
-    let regKey : Addr → Option Nat := fun v =>
+    -- the address string each validator registered: the canonical spelling `4 * key` of its key
+    let keys : Addr → Option Nat := fun v =>
       match keyList.find? (·.1 == v) with
-      | some p => if p.2 == 0 then none else some p.2
+      | some p => if p.2 == 0 then none else some (4 * p.2)
       | none => none
     let (fin, outs) := steps.foldl (fun (acc : CState × List String) st =>
       let a := st.1
       let s : CState := { acc.1 with grants := fun g e => st.2 && g == a.creator && a.signers.contains e }
-      let ok := cAccepted regKey s a
-      (cDeliver regKey s a, acc.2 ++ [if ok then "ok" else "rej"])) ({ confirms := [], grants := fun _ _ => false }, [])
+      let ok := cAccepted s a
+      (cDeliver s a, acc.2 ++ [if ok then "ok" else "rej"])) ({ confirms := [], grants := fun _ _ => false, keys := keys }, [])
     let set := sortPairs (fin.confirms.map fun c => (c.orch, c.key))
     let setS := if set.isEmpty then "-" else ",".intercalate (set.map fun p => s!"{p.1}/{p.2}")
     ",".intercalate outs ++ "|" ++ setS
@@ -205,12 +208,10 @@ def step (args : List String) : String :=
       | some authf =>
         if (h != "ok" && h != "rej" && h != "pre") || (chg != "0" && chg != "1" && chg != "2") then "bad-op" else
         let grants := grantsFn grantList
-        let m : Msg := { typ := typ, signers := metaSigners, creator := creator, idField := fun _ => victim }
+        let m : Msg := toMsg { typ, metaSigners, creator, authf }
         let viaGov := sc.startsWith "gov"
         let ante := viaGov || (h != "pre" && sigCheck typ txSigners metaSigners authf && anteOk m grants)
-        let authorityOk :=
-          (authf == none || authf == some authority)
-          && (authorityIgnoresCreator.contains typ || creator == authority)
+        let authorityOk := authorityOkOf typ creator authf
         let res :=
           if !ante then false
           else match ruleOf typ with
